@@ -417,6 +417,14 @@ def run(ctx, rep):
             f(ctx, rep)
         except Unsupported as u:
             rep.undecided(rule, f.__name__, f"line {getattr(u.node, 'lineno', 0)}", str(u))
+    # the value that is reported is a likelihood, not the -inf of an underflow: every evaluation path of the model tests the plain result and recomputes it with rescaling
+    # (the C03.G / C03.P / C03.W rules, consulted as a whole)
+    from props import c03 as _c03
+    from sa.report import RuleProxy as _RPu
+    try:
+        _c03.run(ctx, _RPu(rep, 'C01.K', 'underflow::'))
+    except Unsupported as u:
+        rep.undecided('C01.K', 'underflow::c03', '', str(u))
     # tip vectors handed to the likelihood must be the ones of *this* request (ambiguity flag, index set): no memo keyed on less
     from props import c11
     c11.check_memo_keys(ctx, rep, rule='C01.W', only=lambda m: m.name in ('torchtree.evolution.site_pattern', 'torchtree.evolution.alignment', 'torchtree.evolution.attribute_pattern'))
